@@ -795,7 +795,7 @@ def job_b(fam, kind, impl, sizes, n, thin, D, faults=True, lean=False, starts=('
 def configs_a(tier):
     """(fam, kind, impl, sizes, n, variant, thin, evictions, weight)"""
     out = []
-    deep = F.COVER if tier == 'quick' else F.FAMILIES
+    deep = F.COVER
     n5 = {('OO', 'BTree'), ('IF', 'BTree'), ('fs', 'BTree'), ('LQ', 'TreeSet'), ('UI', 'TreeSet'),
           ('OU', 'TreeSet')}
     thinq = {('OO', 'BTree'), ('QL', 'BTree'), ('IF', 'TreeSet'), ('fs', 'TreeSet')}
@@ -820,17 +820,19 @@ def configs_a(tier):
                             out.append((fam, kind, impl, (2, 2), 7, 'centred', 'asc', 'all', 45))
                     else:
                         out.append((fam, kind, impl, (2, 2), 5, 'centred', None, 'single', 400))
-                        out.append((fam, kind, impl, (3, 2), 5, 'centred', None, 'single', 100))
-                        out.append((fam, kind, impl, (2, 3), 5, 'centred', None, 'single', 100))
-                        if c:
+                        out.append((fam, kind, impl, (3, 2), 5, 'centred', None, 'all', 60))
+                        out.append((fam, kind, impl, (2, 3), 5, 'centred', None, 'all', 60))
+                        if c and kind == 'BTree':
                             out.append((fam, kind, impl, (2, 2), 6, 'centred', None, 'all', 600))
-                        for order in ('asc', 'desc'):
-                            out.append((fam, kind, impl, (2, 2), 9 if c else 8, 'centred', order, 'all', 300))
-                        if fam[0] == 'O':
-                            out.append((fam, kind, impl, (2, 2), 5, 'none', None, 'all', 200))
-                        out.append((fam, kind, impl, (2, 2), 5, 'extreme', None, 'all', 200))
+                        out.append((fam, kind, impl, (2, 2), 8, 'centred', 'asc' if kind == 'BTree' else 'desc',
+                                    'all', 150))
+                        if fam[0] == 'O' and c:
+                            out.append((fam, kind, impl, (2, 2), 4, 'none', None, 'all', 30))
+                        if c:
+                            out.append((fam, kind, impl, (2, 2), 4, 'extreme', None, 'all', 30))
                 else:
-                    out.append((fam, kind, impl, (2, 2), 3, 'centred', None, 'single', 3 if c else 9))
+                    out.append((fam, kind, impl, (2, 2), 3 if tier == 'quick' else 4, 'centred', None,
+                                'single', 3 if c else 9))
     return out
 
 
@@ -851,22 +853,25 @@ def configs_b(tier):
                 out.append((fam, kind, 'py', None, 3, None, 1, False, 3))
         return out
     for fam in ('OO', 'OI', 'OL', 'OU', 'OQ'):
+        heavy = fam in ('OO', 'OI')
         for impl in F.IMPLS:
             c = impl == 'c'
             for kind in F.KINDS:
                 tree = kind in F.TREE_KINDS
                 if not tree:
-                    out.append((fam, kind, impl, None, 4, None, 2 if c else 1, False, 5))
+                    out.append((fam, kind, impl, None, 4, None, 2 if c else 1, False, 30))
                     continue
                 if c:
-                    out.append((fam, kind, impl, (2, 2), 5, None, 1, False, 900))
-                    out.append((fam, kind, impl, (2, 2), 4, None, 2, True, 600))
-                    out.append((fam, kind, impl, (3, 2), 5, None, 1, False, 300))
-                    out.append((fam, kind, impl, (2, 3), 5, None, 1, False, 300))
-                    out.append((fam, kind, impl, (2, 2), 9, 'asc', 1, True, 600))
-                    out.append((fam, kind, impl, (2, 2), 9, 'desc', 1, True, 600))
-                else:
-                    out.append((fam, kind, impl, (2, 2), 4, None, 1, False, 300))
+                    if heavy:
+                        out.append((fam, kind, impl, (2, 2), 5, None, 1, False, 900))
+                        out.append((fam, kind, impl, (2, 2), 4, None, 2, True, 480))
+                        out.append((fam, kind, impl, (2, 2), 8, 'asc' if kind == 'BTree' else 'desc', 1, True, 600))
+                    else:
+                        out.append((fam, kind, impl, (2, 2), 4, None, 1, False, 120))
+                    out.append((fam, kind, impl, (3, 2), 4, None, 1, False, 60))
+                    out.append((fam, kind, impl, (2, 3), 4, None, 1, False, 60))
+                elif heavy:
+                    out.append((fam, kind, impl, (2, 2), 4, None, 1, False, 120))
     return out
 
 
